@@ -410,6 +410,17 @@ def std_sorts(bodies):
     return [(b, bi, t, fn) for b in bodies for bi, t, fn in b.calls() if fn and _STD_SORT.search(fn["path"])]
 
 
+def _shallow(e):
+    """the argument itself (through references / tuples), not values computed by earlier calls"""
+    e = strip(e)
+    yield e
+    if e[0] in ("ref", "refmut", "deref"):
+        yield from _shallow(e[1])
+    elif e[0] == "agg" and e[1] == "tuple":
+        for z in e[2]:
+            yield from _shallow(z)
+
+
 def _leads_to_sort(f, b, d, t, fn):
     """the call terminator t of b runs a std sort: directly, inside its crate callee, or inside a closure it is handed"""
     if fn and _STD_SORT.search(fn["path"]):
@@ -541,7 +552,7 @@ def r_sortshape(f):
         for bi, t, fn in b.calls():
             # closures of this function that call the comparator, handed to some other call (windows().all(..), ..)
             for a in t["args"]:
-                for x in walk(d.expr(a)):
+                for x in _shallow(d.expr(a)):
                     if x[0] == "agg" and x[1] == "closure" and len(x) > 3:
                         inner = [c for c in f.fn_bodies if c.kind == "Closure" and (c.id == x[3] or c.id.startswith(x[3] + "::"))]
                         if any(is_caller_code(fn2) and fn2 and fn2["name"] in ("call", "call_mut", "call_once") for c in inner for _, _, fn2 in c.calls()):
